@@ -128,6 +128,7 @@ async fn scenario(sim: Arc<Sim>, unit: Value) -> Obs {
     let _ = drain_events(&mut ea);
     let _ = drain_events(&mut eb);
     let reverse = unit["reverse"].as_bool().unwrap_or(false);
+    let mut kept: Option<anemo::Peer> = None;
     for (i, (which, n)) in cases_of(&unit).into_iter().enumerate() {
         let id = format!("c{i}");
         let Some(spec) = make_spec(&id, &which, n) else {
@@ -138,7 +139,17 @@ async fn scenario(sim: Arc<Sim>, unit: Value) -> Obs {
         let t0 = sim.now_us();
         // `reverse`: the callee of the unit makes the call instead (limits swap roles)
         let (from, to) = if reverse { (&b, a.peer_id()) } else { (&a, b.peer_id()) };
-        let r = tokio::time::timeout(ms(25_000), do_rpc(&sim, from, to, &spec)).await;
+        // `via_handle`: the caller keeps ONE Peer handle for the whole unit; the calls go through
+        // it and the follow-ups through a clone of it (a refusal concerns that RPC only, not the
+        // handle it was made through)
+        let via_handle = unit["via_handle"].as_bool().unwrap_or(false);
+        if via_handle && kept.is_none() {
+            kept = from.peer(to);
+        }
+        let r = match (via_handle, kept.as_mut()) {
+            (true, Some(h)) => tokio::time::timeout(ms(25_000), do_rpc_via(&sim, h, &spec)).await,
+            _ => tokio::time::timeout(ms(25_000), do_rpc(&sim, from, to, &spec)).await,
+        };
         let dur_us = sim.now_us() - t0;
         let sent_after: usize = sim.fabric.log().iter().filter(|d| d.src == na).map(|d| d.len).sum();
         let (result, pending) = match r {
@@ -150,7 +161,11 @@ async fn scenario(sim: Arc<Sim>, unit: Value) -> Obs {
         };
         let handler_started = sim.svc.started(&id) > 0;
         let f = RpcSpec::new(&format!("f{i}")).route("/follow").body(pattern_body(1, 10));
-        let follow_up = match tokio::time::timeout(ms(5_000), do_rpc(&sim, from, to, &f)).await {
+        let follow = match (via_handle, kept.clone()) {
+            (true, Some(mut h)) => tokio::time::timeout(ms(5_000), async { do_rpc_via(&sim, &mut h, &f).await }).await,
+            _ => tokio::time::timeout(ms(5_000), do_rpc(&sim, from, to, &f)).await,
+        };
+        let follow_up = match follow {
             Err(_) => Err("follow-up pending after 5 s".to_string()),
             Ok(o) => match o.result {
                 Ok(ok) => check_response(&f, &ok, to),
@@ -286,10 +301,15 @@ impl Check for C15 {
                                 continue;
                             }
                             u.push(json!({"caller_limit":lc,"callee_limit":ls,"cases":[[f,n]],"reverse":reverse}));
+                            // the same through one kept Peer handle (and a clone of it afterwards)
+                            if l == 1024 {
+                                u.push(json!({"caller_limit":lc,"callee_limit":ls,"cases":[[f,n]],"reverse":reverse,"via_handle":true}));
+                            }
                         }
                     }
                 }
                 u.push(json!({"caller_limit":lc,"callee_limit":ls,"cases":all,"reverse":false}));
+                u.push(json!({"caller_limit":lc,"callee_limit":ls,"cases":all,"reverse":false,"via_handle":true}));
             }
         }
         // no limit anywhere, and a limit on one end only with a huge frame refused by nobody
